@@ -40,7 +40,8 @@ def describe(tier):
         rule="(a) every hybrid class with 1-2 fields over {Int64, Float64, String, Float64[3], Int32[:], nested hybrid} x {no default, default=, default_factory=} "
         "x {no rename, first field renamed} x per field values {equal to the declared default, different, zero, empty}: H.from_dict(h.to_dict()) equals h "
         "on every field (read through the attributes and through _xobject), the dictionary survives json.dumps with xo.JEncoder, and a field with a "
-        "declared default is absent from the dictionary iff its value equals that default. (b) every reference-free type of the universe in which every "
+        "declared default is absent from the dictionary iff its value equals that default; (a') class families {base, derived class declaring the field again "
+        "with another default, derived class inheriting the declaration} serialised in all 6 orders: each class elides exactly its own default and round-trips. (b) every reference-free type of the universe in which every "
         "array at any depth is one-dimensional x 3 value alphabets: T(x._to_json()) equals x.",
         bounds=dict(field_kinds=["sc", "fl", "st", "sa", "da", "hy"], json_types=len(json_types(tier))),
         assumptions=["N-D arrays are outside the property (documented as unsupported by _to_json)"],
@@ -75,6 +76,7 @@ def shards(tier, seed):
     common.quiet()
     fv = field_variants()
     out = [("hyb", i) for i in range(len(fv))]
+    out += [("family", i) for i in range(len(fv)) if fv[i][3] is not None]
     out += [("json", c) for c in cons.chunk(json_types(tier), 16)]
     return out[seed % len(out):] + out[: seed % len(out)]
 
@@ -193,6 +195,74 @@ def run_hybrid(first, tier, res):
                     res.states += 1
 
 
+def run_family(first, tier, res):
+    """class families: a hybrid class, a class derived from it that declares the field again with another default, and one that
+    inherits the declaration; objects of the classes are serialised in every order (what one class's to_dict leaves behind in the
+    process must not change what another class's to_dict does)."""
+    import xobjects as xo
+
+    k, lab, kw, dv = field_variants()[first]
+    if dv is None:
+        return
+    m = menu()[k]
+    other = dict(m["values"])["diff"]
+    third = m["values"][0][1]
+    sig = set()
+    n = 0
+    for order in itertools.permutations(("base", "redeclared", "inherits")):
+        for rename in (False, True):
+            n += 1
+            ren = {"f0": "py_f0"} if rename else {}
+            Base = type("C19B%d_%d" % (first, n), (xo.HybridClass,), {"_xofields": {"f0": xo.Field(m["ftype"], **kw), "k": xo.Int64}, "_rename": ren})
+            Red = type("C19R%d_%d" % (first, n), (Base,), {"_xofields": {"f0": xo.Field(m["ftype"], default=other), "k": xo.Int64}, "_rename": ren})
+            Inh = type("C19I%d_%d" % (first, n), (Base,), {})
+            classes = dict(base=(Base, dv), redeclared=(Red, other), inherits=(Inh, dv))
+            pyname = ren.get("f0", "f0")
+            fields = [(pyname, "f0", k), ("k", "k", "sc")]
+            for who in order:
+                H, own = classes[who]
+                for vlab, v in (("equal-base-default", dv), ("equal-redeclared-default", other), ("third", third)):
+                    res.cases += 1
+                    feat = dict(kinds=[k], defaults=[lab], rename=rename, family=who, order="-".join(order), values=[vlab])
+                    case = dict(part="family", first=first, order=list(order), rename=rename, who=who, value=vlab)
+
+                    def bad(oracle, failure, detail):
+                        key = (oracle, failure, who, order.index(who), rename)
+                        if key not in sig:
+                            sig.add(key)
+                            res.outcomes["bad:" + failure] += 1
+                            res.violations.append(common.violation(oracle, failure, dict(feat, field_kind=k, default_kind=lab, renamed=rename, position=order.index(who)), case, detail))
+
+                    try:
+                        h = H(**{pyname: v, "k": 5})
+                        before = read_hybrid(h, fields)
+                    except Exception as e:
+                        res.skipped["construct(C01/C18's business):" + common.exc_failure(e)] += 1
+                        continue
+                    res.transitions += 2
+                    res.events["to_dict"] += 1
+                    res.events["from_dict"] += 1
+                    try:
+                        d = h.to_dict()
+                        h2 = H.from_dict(d)
+                        after = read_hybrid(h2, fields)
+                    except Exception as e:
+                        bad("C19.from_dict", "family-roundtrip-raises:" + common.exc_failure(e), repr(e))
+                        continue
+                    res.oracles["elision"] += 1
+                    equal, present = veq(v, own), pyname in d
+                    if equal and present:
+                        bad("C19.elision", "default-not-omitted", "%s (%s in order %s): %s=%r equals the default declared for this class but is in the dictionary" % (H.__name__, who, order, pyname, v))
+                    if not equal and not present:
+                        bad("C19.elision", "non-default-omitted", "%s (%s in order %s): %s=%r differs from the default %r declared for this class but is missing" % (H.__name__, who, order, pyname, v, own))
+                    res.oracles["roundtrip"] += 1
+                    if not veq(before, after):
+                        bad("C19.roundtrip", "rebuilt-object-differs", "%s (%s in order %s): %r -> %r" % (H.__name__, who, order, before, after))
+                    else:
+                        res.outcomes["ok:family"] += 1
+                        res.states += 1
+
+
 def jsonify(x):
     """what a JSON encoder/decoder round trip makes of _to_json output (numpy scalars to python numbers)"""
     if isinstance(x, dict):
@@ -250,6 +320,8 @@ def run_shard(shard, tier, seed):
         run_hybrid(shard[1], tier, res)
         if shard[1] == 0:
             res.sample(dict(part="hybrid", first_field=field_variants()[0][:2], second_fields=len(field_variants())))
+    elif shard[0] == "family":
+        run_family(shard[1], tier, res)
     else:
         run_json(shard[1], tier, res)
         # one violation per (oracle, failure) per shard
@@ -266,6 +338,8 @@ def replay(case):
     res = common.ShardResult()
     if case.get("part") == "json":
         run_json([xt.retuple(case["type"])], "quick", res)
+    elif case.get("part") == "family":
+        run_family(case["first"], "quick", res)
     else:
         run_hybrid(case["first"], "quick", res)
     return res.violations
